@@ -580,8 +580,8 @@ def precession_equatorial(
         start_ra.rad() + zeta.rad()
     ) + cos(theta.rad()) * sin(start_dec.rad())
     final_ra = atan2(a, b) + z.rad()
-    if start_dec > 85.0:  # Coordinates are close to the pole
-        final_dec = sqrt(a * a + b * b)
+    if abs(start_dec) > 85.0:  # Coordinates are close to the pole
+        final_dec = copysign(acos(min(1.0, sqrt(a * a + b * b))), c)
     else:
         final_dec = asin(c)
     # Convert results to Angles. Please note results are in radians
@@ -815,8 +815,8 @@ def precession_newcomb(
         start_ra.rad() + zeta.rad()
     ) + cos(theta.rad()) * sin(start_dec.rad())
     final_ra = atan2(a, b) + z.rad()
-    if start_dec > 85.0:  # Coordinates are close to the pole
-        final_dec = sqrt(a * a + b * b)
+    if abs(start_dec) > 85.0:  # Coordinates are close to the pole
+        final_dec = copysign(acos(min(1.0, sqrt(a * a + b * b))), c)
     else:
         final_dec = asin(c)
     # Convert results to Angles. Please note results are in radians
